@@ -1134,7 +1134,7 @@ func (g *gModel) step(t *rapid.T) Step {
 		s.Name = pick(t, "user", idpsrv.UserNames)
 		s.Profile = rapid.IntRange(0, idpsrv.NProfiles-1).Draw(t, "profile")
 		if g.costly < 2 && rapid.IntRange(0, 2).Draw(t, "with-password") == 0 {
-			s.Pw = pick(t, "pw", []int{0, 1, 2, 3, 4, 5, 6, 8})
+			s.Pw = pick(t, "pw", []int{0, 1, 2, 3, 4, 5, 6, 8, 15, 16, 17})
 			g.costly++
 		}
 		s.Bad = rapid.IntRange(0, 11).Draw(t, "bad-body") == 0
@@ -1779,8 +1779,9 @@ func enumNearMissCredentials(_ string, emit func(Case)) {
 			emit(Case{Seed: 21, Init: init, Steps: steps})
 		}
 	}
-	// a password set through the API with white space at its ends works exactly as given only
-	for _, pw := range []int{4, 5} {
+	// a password set through the API with white space at its ends works exactly as given only; so do passwords at and
+	// beyond the longest length the hash function takes (the server may refuse them, in which case nothing logs in)
+	for _, pw := range []int{4, 5, 15, 16, 17} {
 		steps := []Step{{Op: "put_user", Name: "dave", Pw: pw, Profile: 1}}
 		for _, try := range append([]int{pw}, idpsrv.NearMissPasswords(pw)...) {
 			steps = append(steps, Step{Op: "login", Method: "POST", User: "dave", Pw: try})
